@@ -158,13 +158,6 @@ def run_specs(pid, tier, seed, factor, judge):
                      iterative=False)
             c["patterns"] = upword.rand_patterns(rnd, "abc", 3, 2)
             cfgs.append(c)
-    if pid in ("C01", "C02"):
-        # equivalences whose only non-empty child is not the first child of the rule (a relabelling padded with an empty class),
-        # in universes where they are walked in both directions
-        for _ in range(common.scale(tier, 24, 240) * factor):
-            c = specrun.rand_config(rnd, "rot")
-            c.update(rot="pad", alpha="abc", db=rnd.choice(["RuleDB", "RuleDBForgetStrategy", "RuleDBForest"]), iterative=False)
-            cfgs.append(c)
     if pid == "C01":
         # ready rules made for classes other than the one being expanded (default / memory-saving databases key rules by label)
         for _ in range(common.scale(tier, 24, 240) * factor):
@@ -180,6 +173,14 @@ def run_specs(pid, tier, seed, factor, judge):
             c.update(gram=[rnd.choice(["Q", "Q", "P", "K", "R"]) for _ in range(rnd.choice([1, 1, 2]))], gram_flat=True, alpha="ab", patterns=[],
                      params=[], mode="", prefix="", prefver=None, packver=None, factory=None, rot=False, sep=None, reverse_needed=False,
                      symmetry=False, inferral=False, iterative=False, smallest=False, reverse=True, db="RuleDBForest")
+            cfgs.append(c)
+    if pid in ("C01", "C02"):
+        prnd = random.Random(seed * 104729 + int(pid[1:]))  # its own stream: the batches above keep theirs
+        # equivalences whose only non-empty child is not the first child of the rule (a relabelling padded with an empty class),
+        # in universes where they are walked in both directions
+        for _ in range(common.scale(tier, 24, 240) * factor):
+            c = specrun.rand_config(prnd, "rot")
+            c.update(rot="pad", alpha="abc", db=prnd.choice(["RuleDB", "RuleDBForgetStrategy", "RuleDBForest"]), iterative=False)
             cfgs.append(c)
     outs = specrun.pool_map(worker, [(c, N) for c in cfgs])
     specrun.quiet()
